@@ -49,7 +49,7 @@ def gen_world(rng, n, for_sheet):
         W["start"].append(st)
         W["end"].append(st if W["ms"][-1] else st + rng.choice([0, 45, 1440, 3 * 1440 + 60]))
         W["sec"].append(0 if nsec == 0 or rng.random() < 0.3 else rng.randint(1, nsec))
-    if for_sheet and rng.random() < 0.4:
+    if rng.random() < 0.4:
         W["ext"][rng.randrange(n)] = [900 + rng.randint(0, 5)]
     return W
 
@@ -63,7 +63,7 @@ def mins(dt):
     return d.days * 1440 + d.seconds // 60
 
 
-def build(W):
+def build(W, hook=None):
     pj = common.pjplan()
     objs = []
     for i in range(len(W["ids"])):
@@ -85,16 +85,52 @@ def build(W):
             lst.append(objs[c - 1])
             attach(objs[c - 1].children, W["kids"][c - 1])
 
-    attach(w.roots, W["roots"])
+    # the last root (with its subtree and the links that touch it) arrives only after `hook` has run:
+    # objects created by the hook (renderer views) live across a structural edit of the WBS
+    late = W["roots"][-1] if hook is not None and len(W["roots"]) >= 2 else None
+    attach(w.roots, [r for r in W["roots"] if r != late])
     other = pj.WBS()
-    for i, pre in enumerate(W["pre"]):
-        ps = [objs[p - 1] for p in pre]
-        for x in W["ext"][i]:
-            # a task of another WBS, or (odd ids) a free-standing task that belongs to no WBS at all
-            ps.append(pj.Task(x, name="outside") if x % 2 else other // pj.Task(x, name="outside"))
-        if ps:
-            objs[i].predecessors = ps
+    doomed = []
+
+    def link(only_late):
+        for i, pre in enumerate(W["pre"]):
+            involved = late is not None and (_under(W, i + 1, late) or any(_under(W, p, late) for p in pre))
+            if involved != only_late:
+                continue
+            ps = [objs[p - 1] for p in pre]
+            for x in W["ext"][i]:
+                if x % 3 == 0:
+                    # a descendant of a subtree of THIS wbs that is removed afterwards
+                    top = w // pj.Task(5000 + x, name="gone")
+                    ps.append(top // pj.Task(x, name="outside"))
+                    doomed.append(top)
+                else:
+                    # a task of another WBS, or (odd ids) a free-standing task that belongs to no WBS at all
+                    ps.append(pj.Task(x, name="outside") if x % 2 else other // pj.Task(x, name="outside"))
+            if ps:
+                objs[i].predecessors = ps
+
+    link(False)
+    for top in doomed:
+        w.remove(top)
+    out = hook(w) if hook is not None else None
+    n0 = len(doomed)
+    if late is not None:
+        attach(w.roots, [late])
+        link(True)
+    for top in doomed[n0:]:
+        w.remove(top)
+    if hook is not None:
+        return w, objs, out
     return w, objs
+
+
+def _under(W, t, top):
+    while t:
+        if t == top:
+            return True
+        t = W["par"][t - 1]
+    return False
 
 
 def region(text, start_marker, end_marker):
@@ -149,7 +185,7 @@ def decode_network(text, ids):
     src = region(text, '<div class="mermaid">\n', '</div>\n\n<script src=')
     if src is None:
         return [{"kind": "junk", "src": 0, "srcStart": False, "srcName": -1, "dst": 0, "dstName": -1}]
-    nsan = [(i, s.replace('"', "")) for i, s in enumerate(NAMES) if s is not None]
+    nsan = [(i, s.replace('"', "")) for i, s in enumerate(NAMES) if s is not None] + [(-7, "outside")]
     doc = []
     for ln in src.split("\n"):
         if ln in ("flowchart LR", "") or ln.startswith("style "):
@@ -200,7 +236,16 @@ def decode_dhtmlx(text):
 
 def render_events(rng, eid, W):
     pj = common.pjplan()
-    w, objs = build(W)
+    cols = [pj.DhtmlxGanttColumn("name", 200, "Task", True), pj.DhtmlxGanttColumn("start", 80)]
+    gopts = dict(title=rng.choice([None, "Plan: $x"]), weekends=rng.random() < 0.5, tick_interval=rng.choice([None, "1day"]))
+    dopts = dict(columns=rng.choice([None, cols]), scale=rng.choice(["day", "month", "year", "x"]))
+    early = rng.random() < 0.5          # views created before the last root arrives (kept across an edit)
+    mk = lambda w: {"gantt": pj.MermaidGantt(w, **gopts), "network": pj.MermaidNetwork(w), "dhtmlx": pj.DhtmlxGantt(w, **dopts)}
+    if early:
+        w, objs, views = build(W, mk)
+    else:
+        w, objs = build(W)
+        views = mk(w)
     evs = []
     common.set_now(inst(W["start"][0] + rng.choice([-10 ** 6, 0, 720, 10 ** 6])))
     base = {"W": W, "prop": "19", "doc": [], "iframe": True, "jsonok": True, "data": [], "links": [], "linkids": [],
@@ -208,20 +253,14 @@ def render_events(rng, eid, W):
     for kind in ("gantt", "network", "dhtmlx"):
         ev = dict(base, id=eid + len(evs), kind=kind, out="ok")
         try:
+            g = views[kind]
             if kind == "gantt":
-                g = pj.MermaidGantt(w, title=rng.choice([None, "Plan: $x"]), weekends=rng.random() < 0.5,
-                                    tick_interval=rng.choice([None, "1day"]))
                 ev["doc"] = decode_gantt(g.to_html())
-                ev["iframe"] = iframe_ok(g)
             elif kind == "network":
-                g = pj.MermaidNetwork(w)
-                ev["doc"] = decode_network(g.to_html(), W["ids"])
-                ev["iframe"] = iframe_ok(g)
+                ev["doc"] = decode_network(g.to_html(), W["ids"] + [x for l in W["ext"] for x in l])
             else:
-                cols = [pj.DhtmlxGanttColumn("name", 200, "Task", True), pj.DhtmlxGanttColumn("start", 80)]
-                g = pj.DhtmlxGantt(w, columns=rng.choice([None, cols]), scale=rng.choice(["day", "month", "year", "x"]))
                 ev.update(decode_dhtmlx(g.to_html()))
-                ev["iframe"] = iframe_ok(g)
+            ev["iframe"] = iframe_ok(g)
         except RecursionError:
             ev["out"] = "RecursionError"
         except Exception as x:
